@@ -146,6 +146,69 @@ class B:
             return ds[0]
         return None
 
+    def reaching_def(self, l, at):
+        """the only whole-local definition of l that can reach the position at=(bb, idx) (idx None: the block's terminator);
+        None when several can (or none).  Reaching definitions over the CFG; a call's destination is defined on its return edge only."""
+        ds = self.defs().get(l, [])
+        if len(ds) < 2 or at is None:
+            return None
+        bb, idx = at
+        lastin = None
+        for d in ds:
+            if d[1] == bb and d[0] == 's' and (idx is None or d[2] < idx):
+                if lastin is None or d[2] > lastin[2]:
+                    lastin = d
+        if lastin is not None:
+            return lastin
+        s = self._reach_in(l).get(bb)
+        if s is not None and len(s) == 1:
+            i = next(iter(s))
+            return ds[i] if i >= 0 else None
+        return None
+
+    def _reach_in(self, l):
+        cache = self.__dict__.setdefault('_reach_cache', {})
+        if l in cache:
+            return cache[l]
+        ds = self.defs().get(l, [])
+        n = len(self.blocks)
+        last_s, term_def = {}, {}
+        for i, d in enumerate(ds):
+            if d[0] == 's':
+                if d[1] not in last_s or ds[last_s[d[1]]][2] < d[2]:
+                    last_s[d[1]] = i
+            else:
+                term_def[d[1]] = i
+
+        def succ_edges(b):
+            t = self.blocks[b]['t']
+            out = []
+            for k in ('t', 'u', 'else', 'drop'):      # the imaginary edge of a FalseEdge is never taken
+                if isinstance(t.get(k), int):
+                    out.append((t[k], k == 't'))
+            for _, x in t.get('cases') or ():
+                out.append((x, True))
+            return out
+        IN = {0: {-1}}
+        work = [0]
+        while work:
+            b = work.pop()
+            cur = IN.get(b, set())
+            pre = {last_s[b]} if b in last_s else cur
+            for (s_, normal) in succ_edges(b):
+                if not (0 <= s_ < n):
+                    continue
+                o = {term_def[b]} if (normal and b in term_def) else pre
+                have = IN.get(s_)
+                if have is None:
+                    IN[s_] = set(o)
+                    work.append(s_)
+                elif not o <= have:
+                    have |= o
+                    work.append(s_)
+        cache[l] = IN
+        return IN
+
     def local_ty(self, l):
         return self.b['locals'][l]['ty']
 
@@ -192,7 +255,7 @@ class B:
         'core::result::Result::<T, E>::ok',
     )
 
-    def origin(self, op, depth=0, through_calls=True):
+    def origin(self, op, depth=0, through_calls=True, at=None):
         """Backward slice of an operand to a canonical origin:
            ('const', value) | ('fnref', path) | ('arg', n, projs) |
            ('call', callee, bb, projs) | ('local', n, projs) | ('agg', rv, bb) |
@@ -209,10 +272,10 @@ class B:
                 return ('fnref', op['fn'])
             return ('const', op.get('d'))
         if op['k'] in ('cp', 'mv'):
-            return self.origin_place(op['pl'], depth, through_calls)
+            return self.origin_place(op['pl'], depth, through_calls, at)
         return ('unknown',)
 
-    def origin_place(self, pl, depth=0, through_calls=True):
+    def origin_place(self, pl, depth=0, through_calls=True, at=None):
         projs = list(self._proj_names(pl.get('p') or []))
         if pl['l'] == 1 and projs and self.b.get('upvars'):
             first = (pl.get('p') or [None])[0]
@@ -222,7 +285,7 @@ class B:
                     if u['pl']['l'] == 1 and len(up) == 1 and isinstance(up[0], dict) and up[0].get('f') == first['f']:
                         projs[0] = 'upvar:' + u['n']
         projs = tuple(projs)
-        base = self._origin_local(pl['l'], depth, through_calls)
+        base = self._origin_local(pl['l'], depth, through_calls, at)
         return self._with_projs(base, projs)
 
     @staticmethod
@@ -267,7 +330,7 @@ class B:
         """the Ok/Some payload of an Option/Result-valued origin (kept symbolic)"""
         return ('payload', o) if o[0] != 'payload' else o
 
-    def _origin_local(self, l, depth, through_calls):
+    def _origin_local(self, l, depth, through_calls, at=None):
         if depth > 40:
             return ('local', l, ())
         if 1 <= l <= self.b['argc']:
@@ -275,28 +338,32 @@ class B:
             if not self.defs().get(l):
                 return ('arg', l, ())
         d = self.single_def(l)
+        if d is None and at is not None:
+            # several definitions, but only one of them can reach the place the value is read at
+            d = self.reaching_def(l, at)
         if d is None:
             return ('local', l, ())
         kind, bb, idx, node = d
+        at2 = (bb, idx)
         if kind == 's':
             rv = node['rv']
             k = rv['k']
             if k == 'use':
-                return self.origin(rv['op'], depth + 1, through_calls)
+                return self.origin(rv['op'], depth + 1, through_calls, at2)
             if k == 'ref' or k == 'rawptr':
-                return self.origin_place(rv['pl'], depth + 1, through_calls)
+                return self.origin_place(rv['pl'], depth + 1, through_calls, at2)
             if k == 'cast':
-                o = self.origin(rv['op'], depth + 1, through_calls)
+                o = self.origin(rv['op'], depth + 1, through_calls, at2)
                 return ('cast', rv['from'], rv['to'], o)
             if k == 'agg':
                 return ('agg', rv, bb)
             if k == 'bin':
-                return ('bin', rv['op'], self.origin(rv['a'], depth + 1, through_calls),
-                        self.origin(rv['b'], depth + 1, through_calls))
+                return ('bin', rv['op'], self.origin(rv['a'], depth + 1, through_calls, at2),
+                        self.origin(rv['b'], depth + 1, through_calls, at2))
             if k == 'un':
-                return ('un', rv['op'], self.origin(rv['a'], depth + 1, through_calls))
+                return ('un', rv['op'], self.origin(rv['a'], depth + 1, through_calls, at2))
             if k == 'discr':
-                return ('discr', self.origin_place(rv['pl'], depth + 1, through_calls))
+                return ('discr', self.origin_place(rv['pl'], depth + 1, through_calls, at2))
             return ('unknown',)
         else:
             t = node
@@ -304,20 +371,20 @@ class B:
             if through_calls and g is not None and t['args']:
                 for n in (g, r):
                     if n and any(n == p or n.startswith(p) for p in self.PASS_THROUGH):
-                        return self.origin(t['args'][0], depth + 1, through_calls)
+                        return self.origin(t['args'][0], depth + 1, through_calls, at2)
                 if g == 'core::future::future::Future::poll':
                     # `fut.await`: the Ready payload is the output of the future created by ...
-                    return ('awaited', self.origin(t['args'][0], depth + 1, through_calls))
+                    return ('awaited', self.origin(t['args'][0], depth + 1, through_calls, at2))
                 if g == 'core::ops::try_trait::Try::branch':
                     # `x?`: the Continue payload is the Ok/Some payload of x
-                    inner_ = self.origin(t['args'][0], depth + 1, through_calls)
+                    inner_ = self.origin(t['args'][0], depth + 1, through_calls, at2)
                     if inner_[0] == 'agg' and inner_[1].get('var') in ('Ok', 'Some') and len(inner_[1].get('ops') or []) == 1:
                         # `Ok(x)?` (an inlined helper hands its value over like this): the value is x
-                        return ('try_lit', self.origin(inner_[1]['ops'][0], depth + 1, through_calls))
+                        return ('try_lit', self.origin(inner_[1]['ops'][0], depth + 1, through_calls, at2))
                     return ('try', inner_)
                 for n in (g, r):
                     if n and n in self.OK_PRESERVING:
-                        return self.origin(t['args'][0], depth + 1, through_calls)
+                        return self.origin(t['args'][0], depth + 1, through_calls, at2)
             return ('call', r or g, bb, ())
 
     # ------------------------------------------------------- forward slice ---
